@@ -38,22 +38,17 @@ Theorem C16_key_moves_in_batch_refuted : refutes [1; 2; 3] k5_progs_reset k5_act
 Proof. exact k5_reset_refutes. Qed.
 Print Assumptions C16_key_moves_in_batch_refuted.
 
-(* Dependency tracking: on every reachable state, if an object of a queued secondary batch matches (old or new
-   version) a filter recorded for input a, then changedInputKeys returns a — through the reverse index for
-   key/index filters, by the full scan otherwise. *)
+(* Dependency tracking, for EVERY transformation (no ownership, no purity): on every reachable state, if an
+   object of a secondary batch matches (old or new version) a filter recorded for input a, then
+   changedInputKeys returns a — through the reverse index for key/index filters, by the full scan otherwise.
+   (So K5 is a defect of the output diffing, not of the dependency tracking.) *)
 Theorem C16_dependency_sound :
-  forall (univ : list N) (tr : iobj -> (N -> filt -> list sobj) -> list dep * list (N * N))
-         (owner : N -> N) (valid : iobj -> Prop),
-    (forall i phi k v, valid i -> In (k, v) (snd (tr i phi)) -> owner k = fst i) ->
-    (forall i phi psi,
-        (forall d, In d (fst (tr i phi)) -> phi (d_id d) (d_filter d) = psi (d_id d) (d_filter d)) ->
-        tr i phi = tr i psi) ->
-    forall xs, Forall (ProofsInv.act_valid valid) xs ->
+  forall (univ : list N) (tr : iobj -> (N -> filt -> list sobj) -> list dep * list (N * N)) xs,
     let W := run univ tr w0 xs in
     forall c evs e a ds,
       d_deps (wD W) a = Some ds -> In e evs -> object_changed ds c e false = true ->
       In a (changed_input_keys (wD W) c evs).
-Proof. exact dependency_sound. Qed.
+Proof. exact dependency_sound_all. Qed.
 Print Assumptions C16_dependency_sound.
 
 (* ... and that test is the right one: if neither the old nor the new version of the object at key k matches a
@@ -67,8 +62,26 @@ Theorem C16_fetch_only_changes_on_match :
 Proof. exact fetch_unaffected. Qed.
 Print Assumptions C16_fetch_only_changes_on_match.
 
-(* Event streams: for every subscriber (early or late), replaying what it was sent reproduces the contents,
-   after any history and schedule, with no ownership hypothesis. *)
+(* Event streams, under ownership: every subscriber's stream (early or late registration) is per-key
+   well-formed — Add only of an absent key, Update/Delete only of a present key with its current value, no
+   no-op Update — and replaying it reproduces the contents; for every history and schedule. *)
+Theorem C16_events_consistent :
+  forall (univ : list N) (tr : iobj -> (N -> filt -> list sobj) -> list dep * list (N * N))
+         (owner : N -> N) (valid : iobj -> Prop),
+    (forall i phi k v, valid i -> In (k, v) (snd (tr i phi)) -> owner k = fst i) ->
+    (forall i phi psi,
+        (forall d, In d (fst (tr i phi)) -> phi (d_id d) (d_filter d) = psi (d_id d) (d_filter d)) ->
+        tr i phi = tr i psi) ->
+    (forall i phi k v, valid i -> In (k, v) (snd (tr i phi)) -> k <> 0) ->
+    forall xs, Forall (ProofsInv.act_valid valid) xs ->
+    let W := run univ tr w0 xs in
+    forall h evs, In (h, evs) (d_handlers (wD W)) ->
+      stream_wf fempty evs = true /\ forall k, replay evs k = d_outputs (wD W) k.
+Proof. exact events_consistent. Qed.
+Print Assumptions C16_events_consistent.
+
+(* Without ownership the replay half still holds (K5 histories included): *)
+(* for every subscriber, replaying what it was sent reproduces the contents, after any history and schedule. *)
 Theorem C16_events_replay :
   forall (univ : list N) (tr : iobj -> (N -> filt -> list sobj) -> list dep * list (N * N)) (valid : iobj -> Prop),
     (forall i phi k v, valid i -> In (k, v) (snd (tr i phi)) -> k <> 0) ->
